@@ -4,6 +4,7 @@ CONSTANTS
   RNames <- MCRNames
   LabelBytes <- MCLabelBytes
   Fixed <- MCFixed
+  FixedWithName <- MCFixed
   MaxQ = 1
   MaxAn = 3
   MaxNs = 1
